@@ -24,7 +24,9 @@ Inductive c06_op : Type :=
 | QLock (i : nat) (mode : Z) (tmo : Z)       (* q_lock i mode t      qrwlock::lock(mode, Timeout(t)) *)
 | QTryLock (i : nat) (mode : Z)              (* q_try i mode         qrwlock::try_lock(mode) *)
 | QUnlock (i : nat)                          (* q_unlock i           qrwlock::unlock() if this thread holds lock i, else skipped *)
-| QState (i : nat).                          (* q_state i            lock_state *)
+| QState (i : nat)                           (* q_state i            lock_state *)
+| QWaiters (i : nat)                         (* q_waiters i          1000 * |cv_unique.q| + |cv_shared.q|  (probe, harness/C06/ops_qrw.cpp) *)
+| RwWaiters (i : nat).                       (* rw_waiters i         |cvar.q| *)
 
 Definition get_obj (u : ustate) (i : nat) : obj := nth i u ONone.
 Definition set_obj (u : ustate) (i : nat) (o : obj) : ustate := upd_nth u i o.
@@ -202,6 +204,16 @@ Definition c06_step (st : state ustate) (t : tid) (o : c06_op) (k : kont) : stat
   | QState i =>
       match get_obj (s_user st) i with
       | OQ s0 => (st, ARet (ls s0) 0)
+      | _ => (st, ARet SKIPPED 0)
+      end
+  | QWaiters i =>
+      match get_obj (s_user st) i with
+      | OQ _ => (st, ARet (1000 * Z.of_nat (length (wq_get st (q_main i))) + Z.of_nat (length (wq_get st (q_shared i)))) 0)
+      | _ => (st, ARet SKIPPED 0)
+      end
+  | RwWaiters i =>
+      match get_obj (s_user st) i with
+      | ORw _ => (st, ARet (Z.of_nat (length (wq_get st (q_main i)))) 0)
       | _ => (st, ARet SKIPPED 0)
       end
   end.
